@@ -14,6 +14,11 @@ CHECKS = {
    text="Model checking: Encoding.tla models emitter, back-patching and decoder; TLC explores every emission sequence up to 5-6 instructions with byte base 4 (all operand/target overflow boundaries, 1e5-1.4e6 states) and checks Decode(Encode(p)) = p or refused, and that the pre-fix masking emitter violates it (non-vacuity). Conformance: TLC enumerates (template, n) over 19 shape templates with n across 255/256 and the 64 KB code boundary (quick 225, thorough ~430 programs up to n = 1e5), the engine runs each, TLC judges the result against the closed form in C14.tla or accepts a refusal only if it is a JSError raised before anything executed; TLC also judges, on the exported real bytecode of every compiled function, that all jump targets are instruction starts and that the decoder tables of both interpreter loops and the emitter agree (read from the engine's source).",
    design_ref="DESIGN.md 5/C14",
    note="Trusted: TLC; the template renderer in checks/c14_driver.py against the closed forms (cross-checked at n = 1, 2, 50); extraction of decoder tables from vm.py by ast (failure = exit 2). Operator chains deeper than the documented parser recursion limit are out of scope."),
+ "C02": dict(
+   technique="TLA+ models MemLimit (accounting + host-stack budget) and JsVM (abstract VM over exported real bytecode, all static paths) checked by TLC; depth statistics recorded at every loop back-edge of real runs judged by TLC",
+   text="Model checking: MemLimit.tla (the est = 100*operands + 200*frames check before every step, script calls pushing frames, natives nesting interpreter loops under a depth cap) is explored exhaustively for M set/unset: MemBound, HostBound (violated without the cap: non-vacuity), finiteness. JsVM.tla is run by TLC over the REAL bytecode of every enumerated statement body (inner construct x exit kind x enclosure x place; quick ~830 bodies / 2400 functions, thorough the full valid product): both outcomes of every branch, an exception edge from every instruction that can raise, invariants no-underflow, valid targets, end/return cleanliness, handler balance and bounded depth - a universally quantified statement over iteration counts. Conformance: each body runs N = 1, 30/50, 200/2000 times under a small fixed M with the hook recording operand/handler/frame depth at every backward jump; TLC judges steadiness at every loop head, equal outcome and equal peak depths for all N, never MemoryLimitError. Recursion shapes (self, mutual, each callback-taking built-in, accessors, conversions, call/apply/bind, new, eval, Function) x M: TLC judges MemoryLimitError after at most M/200 + 2 levels, never a host error.",
+   design_ref="DESIGN.md 5/C02",
+   note="Trusted: TLC; the stack-effect table in JsVM.tla (transcribed from VM._execute_opcode; an unknown opcode is reported as bad:opcode); the hook. Static findings are violations only when a real run confirms them (otherwise listed as static_only in evidence). Bytes and seconds are not judged (steps and depths are); heap data is documented as unaccounted."),
 }
 NOT_APPLICABLE = {}
 ALL = ["C%02d" % i for i in range(1, 21)]
